@@ -467,6 +467,37 @@ fn apply(st: &mut EditState, op: &Op) -> Result<(), String> {
         "transp" => st.make_layer_transparent(),
         "stampdown" => st.stamp_layer_down(),
         "paste" => st.paste_clipboard_data(&clipboard(ai(0), ai(1), a(2).max(0) as u32, a(3).max(0) as u32, a(4) as u64)),
+        "pastex" => {
+            // explicit cells: x y w h cell*
+            let (w, h) = (a(2).max(0) as u32, a(3).max(0) as u32);
+            let mut data = vec![0u8];
+            data.extend(i32::to_le_bytes(ai(0)));
+            data.extend(i32::to_le_bytes(ai(1)));
+            data.extend(u32::to_le_bytes(w));
+            data.extend(u32::to_le_bytes(h));
+            for k in 0..(w * h) as usize {
+                let c = dec_cell(a(4 + k));
+                data.extend(u16::to_le_bytes(c.ch as u16));
+                data.extend(u16::to_le_bytes(c.attribute.attr));
+                data.extend(u16::to_le_bytes(c.attribute.get_font_page() as u16));
+                data.extend(u32::to_le_bytes(c.attribute.get_background()));
+                data.extend(u32::to_le_bytes(c.attribute.get_foreground()));
+            }
+            st.paste_clipboard_data(&data)
+        }
+        "enumsel" => {
+            let k = a(0) as u32;
+            st.enumerate_selections(move |pos, ch, _sel| {
+                if ch.ch as u32 == k {
+                    Some(true)
+                } else if (pos.x + pos.y) % 3 == 0 {
+                    Some(false)
+                } else {
+                    None
+                }
+            });
+            Ok(())
+        }
         "anchor" => st.anchor_layer(),
         "addfloat" => st.add_floating_layer(),
         "ice" => st.set_ice_mode(match a(0) {
